@@ -658,7 +658,7 @@ func relevantFacts(facts []*Term, goal *Term) []*Term {
 	for len(work) > 0 {
 		n := work[len(work)-1]
 		work = work[:len(work)-1]
-		if seenReach[n] || (strings.Contains(n, "reach!hdr!") && !direct[n]) {
+		if seenReach[n] {
 			continue
 		}
 		seenReach[n] = true
@@ -666,12 +666,16 @@ func relevantFacts(facts []*Term, goal *Term) []*Term {
 		if !ok {
 			continue
 		}
+		// a loop-header cut that is not the goal's own block: the path BEFORE the loop is not followed
+		// further (the invariant carries what the loop needs), but the named condition under which the
+		// loop was entered stays relevant (e.g. the switch case the loop sits in)
+		cut := strings.Contains(n, "reach!hdr!") && !direct[n]
 		dc := map[string]*Term{}
 		FreeConsts(facts[i].Args[1], dc)
 		for m := range dc {
 			if local(m) {
 				rel[m] = true
-			} else if strings.Contains(m, "reach!") {
+			} else if strings.Contains(m, "reach!") && !cut {
 				work = append(work, m)
 			}
 		}
